@@ -16,6 +16,7 @@ from __future__ import annotations
 
 import dataclasses
 import functools
+import os
 
 import z3
 
@@ -73,6 +74,10 @@ class Env:
         self.metadata = None
         self.sql_mode = False  # SQL determinacy rules in sem_seq (DESIGN 2.4)
         self.count_mode = False  # order of unordered tables is irrelevant (count-only VCs)
+        self.history = True  # build() first builds an equal-but-not-identical tree over decoy leaves (see _tree_history)
+        self.in_history = False
+        self.history_done = {}
+        self.decoys = {}
 
     def val(self, v):
         if isinstance(v, str):
@@ -170,12 +175,81 @@ def expression_history(env, *nodes):
                 pass
 
 
+_OPS = ("leaf", "calc", "proj", "sel", "dedup", "sort", "slice", "chain", "join", "mat", "xfer")
+HISTORY = not os.environ.get("VERIF_NO_HISTORY")
+CURRENT_DECOYS = {}  # id(decoy LeafRelation) -> object, of the Env that built last (read by pytree)
+
+
+def leaf_names(node, acc=None):
+    acc = set() if acc is None else acc
+    if isinstance(node, tuple) and node and isinstance(node[0], str) and node[0] in _OPS:
+        if node[0] == "leaf":
+            acc.add(node[1])
+        else:
+            for x in node[1:]:
+                leaf_names(x, acc)
+    return acc
+
+
+def _decoy_of(env, leaf):
+    """A leaf equal to `leaf` as the library compares leaves (engine, name, columns) that had no rows / another table."""
+    from lsst.daf.relation import LeafRelation, iteration, sql
+
+    base = leaf if isinstance(leaf, LeafRelation) else getattr(leaf, "skip_to", None)
+    if not isinstance(base, LeafRelation) or base.max_rows == 0 or base.is_join_identity:
+        return None
+    if isinstance(base.engine, sql.Engine):
+        import sqlalchemy as sa
+
+        ca = {t: sa.Column(t.qualified_name, sa.Integer) for t in sorted(base.columns, key=lambda t: t.qualified_name)}
+        tbl = sa.Table("old_" + base.name, sa.MetaData(), *ca.values())
+        d = base.engine.make_leaf(base.columns, payload=sql.Payload(from_clause=tbl, columns_available=ca), name=base.name)
+        env.decoys[id(getattr(d, "skip_to", d))] = getattr(d, "skip_to", d)
+        return d
+    if isinstance(base.engine, iteration.Engine):
+        d = LeafRelation(base.engine, base.columns, iteration.RowSequence([]), name=base.name, min_rows=0, max_rows=None)
+        env.decoys[id(d)] = d
+        return d
+    return None
+
+
+def _tree_history(env, node):
+    """Earlier life of the same engine objects (DESIGN 7.2 "histories"): the same factory calls over leaves of the same
+    names, engines and columns that were empty / bound to another table then - trees that compare *equal* to the ones under
+    test without being them - are made and their metadata read.  Whatever the library remembers per equal relation,
+    operation or expression is remembered before the tree under test is built; a decoy leaf that turns up in a tree under
+    test evaluates to no rows in sem_tree / pytree."""
+    saved = {n: env.leaves[n] for n in leaf_names(node) if n in env.leaves}
+    env.in_history = True
+    try:
+        for n, leaf in saved.items():
+            d = _decoy_of(env, leaf)
+            if d is not None:
+                env.leaves[n] = d
+        try:
+            r = _build(node, env, {})
+            _ = (r.min_rows, r.max_rows, r.columns, r.is_trivial, str(r))
+        except Exception:  # noqa: BLE001 - the earlier tree is not the subject
+            pass
+    finally:
+        env.leaves.update(saved)
+        env.in_history = False
+
+
 def build(node, env, memo=None):
-    """Build the real relation for a program through the public factory methods."""
+    """Build the real relation for a program through the public factory methods (after the equal-tree history)."""
+    global CURRENT_DECOYS
+    if HISTORY and env.history and not env.in_history and node[0] != "leaf" and id(node) not in env.history_done:
+        env.history_done[id(node)] = node
+        CURRENT_DECOYS = env.decoys
+        _tree_history(env, node)
+    return _build(node, env, {} if memo is None else memo)
+
+
+def _build(node, env, memo):
     from lsst.daf.relation import SortTerm
 
-    if memo is None:
-        memo = {}
+    build = _build  # noqa: F841 - the recursive calls below stay inside the unwrapped builder
     key = id(node)
     if key in memo:
         return memo[key]
@@ -343,7 +417,10 @@ def sem_tree(rel, env, prefer="r"):
     )
 
     if isinstance(rel, LeafRelation):
-        return env.tables[rel.name]
+        t = env.tables[rel.name]
+        if id(rel) in env.decoys:  # a leaf of the earlier, equal tree: it had no rows
+            return Tab([], t.cols, t.ordered)
+        return t
     if isinstance(rel, MarkerRelation):
         return sem_tree(rel.target, env, prefer)
     if isinstance(rel, BinaryOperationRelation):
@@ -652,6 +729,8 @@ def pytree(rel, leafrows, prefer="r"):
     from lsst.daf.relation import BinaryOperationRelation, Chain, Join, LeafRelation, MarkerRelation, UnaryOperationRelation
 
     if isinstance(rel, LeafRelation):
+        if id(rel) in CURRENT_DECOYS:
+            return []
         return [dict(r) for r in leafrows[rel.name]]
     if isinstance(rel, MarkerRelation):
         return pytree(rel.target, leafrows, prefer)
